@@ -18,6 +18,7 @@ import threading
 import time
 
 import probe  # noqa: F401  (imports schwifty, defines run())
+import regstore
 import schwifty.checksum as checksum_mod
 from schwifty.checksum import algorithms
 
@@ -91,8 +92,8 @@ def census():
     import hashlib
     from schwifty import registry
     h = hashlib.sha256()
-    for name in sorted(registry._registry, key=str):
-        v = registry._registry[name]
+    for name in sorted(regstore.store(), key=str):
+        v = regstore.store()[name]
         h.update(repr(name).encode())
         h.update(repr(len(v)).encode())
         if isinstance(v, dict):
@@ -114,7 +115,7 @@ def census_full():
     import hashlib
     import pickle
     from schwifty import registry
-    return hashlib.sha256(pickle.dumps(registry._registry, protocol=4)).hexdigest()[:20]
+    return hashlib.sha256(pickle.dumps(regstore.store(), protocol=4)).hexdigest()[:20]
 
 
 def snapshot_nonscratch():
@@ -377,7 +378,7 @@ def run_history(calls):
             # cheap per-call digest (attributes a modification to the call that made it): sizes of
             # all registries and the projections of the witness objects; the complete digest of the
             # registries is taken once per history (census_full)
-            sizes = [(str(k), len(v)) for k, v in sorted(_reg._registry.items(), key=lambda kv: str(kv[0]))]
+            sizes = [(str(k), len(v)) for k, v in sorted(regstore.store().items(), key=lambda kv: str(kv[0]))]
             return hashlib.sha256(repr((sizes, project(objs))).encode()).hexdigest()[:16]
 
         census0 = dig()
